@@ -97,8 +97,41 @@ fn make_repr<G: LibG>(k: &BigUint, from_x: &Option<FromX>, repr: &Repr) -> G {
 
 /// boundary x-coordinates that carry a G1 point (cofactor 1: every curve point is in G1):
 /// small integers, q-1 (the point (-1, +-2)), powers of two, values just below q, limb-sparse
+/// x-coordinates of G1 points whose CURVE-EQUATION VALUE y^2 = x^3 + 5 is special rather than x
+/// itself: y^2 limb-sparse as a canonical integer (e.g. a multiple of 2^64) or in stored
+/// (Montgomery) form; x = cbrt(y^2 - 5) (q = 4 mod 9: cube root by one exponentiation)
+fn boundary_y2_x(pr: &mut Prng) -> Option<BigUint> {
+    let q = model::q();
+    let rr = BigUint::one() << 256;
+    let e = ((q * 2u32) + 1u32) / 9u32;
+    for _ in 0..24 {
+        let raw = match pr.below(4) {
+            0 => crate::world_fld::limb_sparse(pr, 3) << 64,
+            1 => crate::world_fld::limb_sparse(pr, 4),
+            2 => BigUint::from(pr.next_u64()) << (64 * (1 + pr.below(3)) as u32),
+            _ => crate::world_fld::limb_patterns(pr, q),
+        } % q;
+        // canonical or stored form
+        let t = if pr.chance(1, 2) { raw } else { (raw * model::minv(&(&rr % q), q).unwrap()) % q };
+        if t.is_zero() || !model::is_square_mod(&t, q) {
+            continue;
+        }
+        let c = model::msub(&t, &BigUint::from(5u32), q);
+        let x = c.modpow(&e, q);
+        if (&x * &x * &x) % q == c {
+            return Some(x);
+        }
+    }
+    None
+}
+
 pub fn boundary_x(pr: &mut Prng) -> FromX {
     let q = model::q();
+    if pr.chance(1, 3) {
+        if let Some(x) = boundary_y2_x(pr) {
+            return FromX { x: hex(&be32(&x)), y_odd: pr.chance(1, 2) };
+        }
+    }
     let mut x = match pr.below(9) {
         0 => q - 1u32,
         1 => BigUint::from(pr.below(64)),
@@ -697,6 +730,8 @@ pub enum Cand {
     /// arbitrary coordinates
     G2Junk { x: String, y: String },
     G1On { k: String, negate: bool },
+    /// a G1 point with a boundary x or a boundary curve-equation value (must be accepted)
+    G1Boundary { x: String, y_odd: bool },
     G1YPlus1 { k: String },
     G1XPlus1 { k: String },
     G1WrongB { x: String, b: u64 },
@@ -728,6 +763,7 @@ impl Cand {
             Cand::G2Scaled { .. } => "g2_scaled_other_curve",
             Cand::G2Junk { .. } => "g2_junk",
             Cand::G1On { .. } => "g1_on_curve",
+            Cand::G1Boundary { .. } => "g1_boundary_point",
             Cand::G1YPlus1 { .. } => "g1_y_plus_1",
             Cand::G1XPlus1 { .. } => "g1_x_plus_1",
             Cand::G1WrongB { .. } => "g1_wrong_b",
@@ -850,6 +886,12 @@ fn build_g1(c: &Cand) -> Option<((Q, Q), bool)> {
             let p = pmul(&Some(g1), &k)?;
             let p = if *negate { (p.0, p.1.neg()) } else { p };
             Some((p, true))
+        }
+        Cand::G1Boundary { x, y_odd } => {
+            let x = Q::new(from_be(&unhex(x)));
+            let (x, y) = model::g1_point_with_x(&x)?;
+            let y = if y.is_odd() == *y_odd { y } else { y.neg() };
+            Some(((x, y), true))
         }
         Cand::G1YPlus1 { k } => {
             let k = from_be(&unhex(k)) % r;
@@ -1080,7 +1122,11 @@ pub fn generate9(seed: u64, index: u64) -> Wire9Spec {
                     Cand::G2Scaled { k: hk(&mut pr), lam: hex(&lam) }
                 }
             }
-            10 | 11 => Cand::G1On { k: hk(&mut pr), negate: pr.chance(1, 2) },
+            10 => Cand::G1On { k: hk(&mut pr), negate: pr.chance(1, 2) },
+            11 => {
+                let fx = boundary_x(&mut pr);
+                Cand::G1Boundary { x: fx.x, y_odd: fx.y_odd }
+            }
             12 => Cand::G1YPlus1 { k: hk(&mut pr) },
             13 => Cand::G1XPlus1 { k: hk(&mut pr) },
             14 | 15 => Cand::G1WrongB { x: hex(&pr.bytes(32)), b: *pr.pick(&[0u64, 1, 2, 3, 4, 6, 7, 10]) },
